@@ -6,6 +6,10 @@ HERE = os.path.dirname(os.path.dirname(os.path.abspath(__file__)))
 
 # id -> (level category, technique, level text, level note, design ref)
 CHECKS = {
+ "C04": ("model_checking", "seal-log monitor over an exhaustively enumerated scenario space of real connection lifetimes + exhaustive counter-boundary enumeration",
+         "Every connection lifetime in the scenario space (ciphers x both salted-hash orientations x {A dials, B dials, both dial with crossing pings} x all 256 loss patterns over the first 8 rotation datagrams, 8-12 rotation cycles with traffic both ways) is executed on real PeerCrypto objects with the hook's per-seal log on: no (key fingerprint, nonce) pair occurs twice, counters strictly increase per key and end, untransmitted nonce bytes stay zero, ends use opposite halves, first counters of rotated-in keys do not continue another key's sequence. The counter increment is compared with 96-bit +1 on every boundary pattern and on all 2^24 low-byte values under 4 high patterns (67 M cases); counters placed at 2^56-10..2^56+3 and at every byte-carry boundary are sealed 7 times and opened: overflowing counters must not open, headers never repeat. The half assignment over all handshake schedules is checked in C05's search.",
+         "Trusted: the seal-log hook records exactly the (key, nonce) handed to ring (one added line in CryptoCore::encrypt). Random counter starts are not forced except through verif_set_send_nonce in the limit family.",
+         "DESIGN.md section 5 C04"),
  "C03": ("model_checking", "explicit-state BFS by history replay over a real CryptoCore pair, history-only reference oracle",
          "All schedules over {seal (<=5), deliver any sealed datagram (again), forge (raised counter), tick, rotate (new key id at receiver then sender)} up to depth 9 quick / 11 thorough per cipher, executed on real CryptoCore objects; every delivery's accept/reject verdict is compared with a threshold computed from the recorded history only, and in every reached state every datagram sealed so far plus a fresh one is probed. States are deduplicated on a canonical form (key classes, thresholds and counters as offsets, oracle ages); a dedup-off audit to a smaller depth must reach the same canonical states.",
          "Trusted: ring AEAD authenticity; counters near byte-carry boundaries are covered by C04, not forced here. Node-level replay (interface writes k rounds later) is covered by C09's replay family.",
